@@ -175,7 +175,34 @@ func Hard(rng *rand.Rand, name, packageRoot string, maxTypes int) *Schema {
 		s.Add(&TypeDef{Kind: "complexkey", Name: "CKey", Namespace: nss[0], Key: records[0], Params: records[1]})
 	}
 	addRandomResources(rng, s, name, records, leaves)
+	annotate(s)
 	return s
+}
+
+// annotate marks fields of resource entities read-only / create-only in every combination (none, create-only alone,
+// read-only alone, both), chosen by the resource's position so that no PRNG draw is spent on it.
+func annotate(s *Schema) {
+	for i, r := range s.Resources {
+		if r.Schema == nil || r.Schema.Ref == "" {
+			continue
+		}
+		td := s.Lookup(r.Schema.Ref)
+		if td == nil || td.Kind != "record" || len(td.Fields) == 0 {
+			continue
+		}
+		first, last := td.Fields[0].Name, td.Fields[len(td.Fields)-1].Name
+		switch i % 4 {
+		case 1:
+			r.CreateOnly = []string{first}
+		case 2:
+			r.ReadOnly = []string{first}
+		case 3:
+			r.ReadOnly = []string{first}
+			if last != first {
+				r.CreateOnly = []string{last}
+			}
+		}
+	}
 }
 
 func addRandomResources(rng *rand.Rand, s *Schema, name string, records, leaves []string) {
